@@ -125,7 +125,12 @@ def _build(spec):
     if k == 'CIMDateTime':
         return P.CIMDateTime(spec['s'])
     if k == 'NocaseDict':
-        return ncd()([(key, build_value(v)) for key, v in spec['items']])
+        d = ncd()()
+        if spec.get('unnamed'):
+            d.allow_unnamed_keys = True       # as the keybindings dict of a CIMInstanceName
+        for key, v in spec['items']:
+            d[key] = build_value(v)
+        return d
     kw = {}
     for f in FIELDS[k]:
         v = spec.get(f)
@@ -215,7 +220,10 @@ def enc(o, ids):
     if k in FIELDS:
         i = ids.of(o)
         slots = [s.lstrip('_') for s in type(o).__slots__]
-        return {'k': k, 'a': [enc(getattr(o, s), ids) for s in slots], 'id': i, 'slots': slots}
+        # a slot without a public attribute of that name is private state (e.g. a cache): it travels as None, the
+        # model's table (regenerated from the source) shows it as a slot that __eq__ skips -> the pin theorem reports it
+        return {'k': k, 'a': [enc(getattr(o, s), ids) if s in FIELDS[k] else None for s in slots], 'id': i,
+                'slots': slots}
     raise TypeError('cannot encode %r' % type(o))
 
 
@@ -363,7 +371,7 @@ def g_keybindings(rng, depth, unnamed=False):
             continue
         seen.add(nm.casefold())
         out.append([nm, g_keyvalue(rng, depth)])
-    if unnamed and rng.random() < 0.06:
+    if unnamed and rng.random() < (0.12 if unnamed is True else unnamed):
         out.insert(rng.randint(0, len(out)), [None, g_keyvalue(rng, 0)])   # the unnamed keybinding DSP0201 allows
     return out
 
@@ -483,6 +491,9 @@ def g_datetime(rng):
 
 
 def g_nocasedict(rng):
+    if rng.random() < 0.25:
+        # a keybindings-style dict: unnamed keys allowed, and (mostly) one present
+        return {'K': 'NocaseDict', 'items': g_keybindings(rng, 1, unnamed=0.7), 'unnamed': True}
     return {'K': 'NocaseDict', 'items': g_keybindings(rng, 1)}
 
 
@@ -892,13 +903,18 @@ def is_mut(o):
     return isinstance(o, (list, ncd_base())) or type(o).__name__ in FIELDS
 
 
+def pub_slots(c):
+    """public attribute names of the slots of a CIM object (private slots, e.g. caches, are not attributes)"""
+    return [x.lstrip('_') for x in type(c).__slots__ if x.lstrip('_') in FIELDS.get(type(c).__name__, ())]
+
+
 def sites_copy(c):
     """(via, action) for every position of a copy() result that the documentation does NOT declare shared"""
     k = type(c).__name__
     out = []
     if isinstance(c, ncd_base()):
         return [('dict', lambda: poke(c))]
-    for s in [x.lstrip('_') for x in type(c).__slots__]:
+    for s in pub_slots(c):
         v = getattr(c, s)
         if s in CHILD_ATTRS:
             out.append((s + ':dict', lambda v=v: poke(v)))
@@ -941,7 +957,7 @@ def sites_shallow(c):
     for via, act in sites_copy(c):
         if via.endswith(':set'):
             out.append((via, act))
-    for s in [x.lstrip('_') for x in type(c).__slots__]:
+    for s in pub_slots(c):
         if s in CHILD_ATTRS:
             out.append((s + ':set', lambda s=s: setattr(c, s, None)))
     return out
@@ -960,7 +976,7 @@ def deep_poke(c, seen=None):
         for _, v in list(c._data.values()):
             deep_poke(v, seen)
     else:
-        for s in [x.lstrip('_') for x in type(c).__slots__]:
+        for s in pub_slots(c):
             deep_poke(getattr(c, s), seen)
     poke(c)
 
@@ -1056,6 +1072,181 @@ def gen_copy_case(rng):
     return {'mode': 'copy', 'kind': kind, 'spec': gen(rng)}
 
 
+# ----------------------------------------------------------------------------------------------- mutation sequences
+
+def _child_factory(attr):
+    """a value that may be stored under key 'ZzNew' in the dict-valued attribute `attr`"""
+    P = pyw()
+    return {'properties': lambda: P.CIMProperty('ZzNew', 'v'),
+            'qualifiers': lambda: P.CIMQualifier('ZzNew', True),
+            'methods': lambda: P.CIMMethod('ZzNew', 'uint8'),
+            'parameters': lambda: P.CIMParameter('ZzNew', 'string'),
+            'scopes': lambda: True}.get(attr, lambda: 'v')
+
+
+def inplace_sites(o, out=None, seen=None, where='', attr=None):
+    """(name, action) for every public way of changing `o` or anything reachable from it IN PLACE, in a
+    deterministic order: item assignment / deletion / update() on every NocaseDict, CIMInstanceName and CIMInstance,
+    append / pop on every list value, re-binding of every name / flag attribute, at every depth"""
+    out = [] if out is None else out
+    seen = set() if seen is None else seen
+    if not is_mut(o) or id(o) in seen:
+        return out
+    seen.add(id(o))
+    k = type(o).__name__
+    if isinstance(o, list):
+        out.append((where + 'list.append', lambda: o.append(o[0] if o else None)))
+        if o:
+            out.append((where + 'list.pop', lambda: o.pop()))
+        for e in list(o):
+            inplace_sites(e, out, seen, where + '[].', None)
+    elif isinstance(o, ncd_base()):
+        mk = _child_factory(attr)
+        named = [kv[0] for kv in o._data.values() if kv[0] is not None]
+        out.append((where + 'dict[new]=', lambda: o.__setitem__('ZzNew', mk())))
+        out.append((where + 'dict.update', lambda: o.update({'ZzUpd': mk()})))
+        if named:
+            out.append((where + 'dict.del', lambda: o.__delitem__(named[0])))
+            out.append((where + 'dict[old]=', lambda: o.__setitem__(named[-1], mk())))
+            out.append((where + 'dict.pop', lambda: o.pop(named[-1])))
+        for _, v in list(o._data.values()):
+            inplace_sites(v, out, seen, where + '{}.', None)
+    elif k in FIELDS:
+        if k == 'CIMInstanceName':
+            names = [kv[0] for kv in o.keybindings._data.values() if kv[0] is not None]
+            out.append((where + 'CIMInstanceName[new]=', lambda: o.__setitem__('ZzKey', 'v')))
+            out.append((where + 'CIMInstanceName.update', lambda: o.update(ZzUpd='u')))
+            if names:
+                out.append((where + 'CIMInstanceName[old]=', lambda: o.__setitem__(names[0], 'changed')))
+                out.append((where + 'CIMInstanceName.del', lambda: o.__delitem__(names[0])))
+        if k == 'CIMInstance':
+            props = [kv[0] for kv in o.properties._data.values()]
+            out.append((where + 'CIMInstance[new]=', lambda: o.__setitem__('ZzProp', 'v')))
+            out.append((where + 'CIMInstance.update', lambda: o.update(ZzUpd='u')))
+            if props:
+                out.append((where + 'CIMInstance.del', lambda: o.__delitem__(props[0])))
+            if o.path is not None:
+                # a key property: assigning it propagates the value into path.keybindings
+                kn = [kv[0] for kv in o.path.keybindings._data.values() if kv[0] is not None]
+                if kn:
+                    out.append((where + 'CIMInstance[key]= (propagates to path)',
+                                lambda: o.__setitem__(kn[0], 'propagated')))
+        for s in pub_slots(o):
+            v = getattr(o, s)
+            if s in NAME_ATTRS:
+                out.append((where + k + '.' + s + '=', lambda s=s, v=v: setattr(o, s, (v or '') + 'Zz')))
+            elif s in FLAG_ATTRS and s != 'is_array':
+                out.append((where + k + '.' + s + '=', lambda s=s, v=v: setattr(o, s, not v)))
+            elif s == 'value' and v is not None and not isinstance(v, list):
+                out.append((where + k + '.value=None', lambda: setattr(o, 'value', None)))
+            if is_mut(v):
+                inplace_sites(v, out, seen, where + s + '.', s)
+    return out
+
+
+def eval_mutseq(case):
+    """hash the object (as a set/dict would), change it in place, compare with an equal object that was never hashed
+    before the change.  Returns a list of (site, eq, heq, inset, enc_a, enc_b) / exceptions"""
+    import random as _random
+    spec = case['spec']
+    try:
+        probe = build(spec)
+    except Exception:  # noqa
+        return None
+    if has_nan(enc(probe, Ids())):
+        return None
+    psites = inplace_sites(probe)
+    n = len(psites)
+    rnd = _random.Random(case['seed'])
+    idxs = set(rnd.sample(range(n), min(n, case.get('nsites', 6))))
+    # rare but important paths are always taken: key-property propagation into the path, path item assignment
+    special = [i for i, st in enumerate(psites) if 'propagates' in st[0] or 'CIMInstanceName[' in st[0]]
+    idxs.update(special[:3])
+    idxs = sorted(idxs)
+    res = []
+    for i in idxs:
+        a, b = build(spec), build(spec)
+        r = {'site': None}
+        try:
+            h0 = hash(a)
+            holder = {a: 1}                      # noqa  (what a set / dict user does)
+            sa, sb = inplace_sites(a), inplace_sites(b)
+            r['site'] = sa[i][0]
+            try:
+                sa[i][1]()
+            except Exception as e:  # noqa   the mutation itself is refused (validation): nothing to check
+                r['refused'] = type(e).__name__
+                res.append(r)
+                continue
+            sb[i][1]()
+            r['eq'] = bool(a == b)
+            r['heq'] = hash(a) == hash(b)
+            r['inset'] = b in {a}
+            r['changed'] = hash(a) != h0
+            r['encs'] = [enc(a, Ids()), enc(b, Ids())]
+        except Exception as e:  # noqa
+            r['exc'] = common.exc_json(e)
+        res.append(r)
+    return {'kind': spec['K'], 'n_sites': n, 'res': res}
+
+
+def oracle_mutseq(run, case, ev):
+    kind = ev['kind']
+    for r in ev['res']:
+        if 'refused' in r:
+            continue
+        if 'exc' in r:
+            run.violate({'kind': 'mutation_sequence_raises', 'cls': kind, 'exc': r['exc'].get('exc'),
+                         'via': r['site']}, case, r)
+            continue
+        obs = {k: v for k, v in r.items() if k != 'encs'}
+        if not r['eq']:
+            run.violate({'kind': 'same_mutation_gives_unequal_objects', 'cls': kind, 'via': r['site']}, case, obs)
+        elif not r['heq']:
+            run.violate({'kind': 'stale_hash_after_inplace_change', 'cls': kind, 'via': r['site']}, case, obs)
+        elif not r['inset']:
+            run.violate({'kind': 'set_or_dict_membership_inconsistent', 'cls': kind, 'via': r['site']}, case, obs)
+
+
+def gen_mutseq_case(rng):
+    kind, gen = rng.choice([t for t in TOP if t[0] != 'CIMDateTime'])
+    return {'mode': 'mutseq', 'kind': kind, 'spec': gen(rng), 'seed': rng.randrange(1 << 30), 'nsites': 6}
+
+
+def _mutseq_worker(case):
+    return eval_mutseq(case)
+
+
+def _mutseq_batch(run, cases):
+    evs = common.pmap(_mutseq_worker, cases, chunksize=32)
+    reqs, kept = [], []
+    for case, ev in zip(cases, evs):
+        if ev is None:
+            run.count('mutseq:skipped')
+            continue
+        run.case({'kind': case['kind'], 'spec': case['spec'], 'mode': 'mutseq', 'seed': case['seed']},
+                 nontrivial=any(r.get('changed') for r in ev['res']))
+        run.count('mutseq:kind:' + case['kind'])
+        oracle_mutseq(run, case, ev)
+        for r in ev['res']:
+            if 'refused' in r:
+                run.count('mutseq:refused')
+                continue
+            run.count('mutseq:site:' + (r['site'] or '?').split('.')[-1])
+            if 'encs' in r:
+                reqs.append({'op': 'cmpn', 'objs': [_strip_slots(e) for e in r['encs']], 'pairs': [[0, 1]]})
+                kept.append((case, r))
+    answers = common.run_driver(PROP, reqs) if reqs else []
+    for (case, r), ans in zip(kept, answers):
+        if 'res' not in ans:
+            run.disagree(case, ans, None, 'driver rejected the encoding')
+            continue
+        m = ans['res'][0]
+        if m['eq'] != r['eq'] or (m['heq'] and not r['heq']):
+            run.disagree({'case': case, 'site': r['site']}, m, {k: v for k, v in r.items() if k != 'encs'},
+                         'eq / hash after an in-place change')
+
+
 # ----------------------------------------------------------------------------------------------- run
 
 def _strip_slots(j):
@@ -1089,12 +1280,16 @@ def run(run):
     rng = run.rng
     n_cmp = 100000 if run.thorough else 10000
     n_copy = 20000 if run.thorough else 2500
+    n_mut = 12000 if run.thorough else 1500
     run.rule = ('cmp: seeded random object of one of 11 kinds (9 CIM classes, CIMDateTime, NocaseDict; nesting depth <= 3; '
                 'names from a 24-name pool with case variants and non-ASCII spellings), then b = variant(a), c = variant(b|a) '
                 'with variant in {same, recase, reorder, numeric retype, one-attribute mutation (possibly nested), combinations}; '
                 'all 8 ordered pairs among a, b, c and a rebuilt twin of a: ==, !=, hash equality, set and dict membership. '
                 'copy: one object, copy()/copy.copy/deepcopy/pickle: equality, id()-walk sharing shape, then one mutation of the '
                 'copy per site outside the documented shared set and comparison of the original with its snapshot. '
+                'mutseq: one object, up to 6 random in-place change sites (item assignment/deletion/update on every dict, path and '
+                'instance, key-property propagation, list append/pop, attribute re-binding, at every depth): hash it, change it, and '
+                'compare ==, hash and set membership with an equal object built and changed without having been hashed before. '
                 'non-trivial = at least one pair equal and one unequal (cmp) / object has a mutable child (copy); distinct = distinct spec JSON')
     run.assumptions += [
         'pywbem.config.IGNORE_NULL_KEY_VALUE = True during the run (NULL key values are generated)',
@@ -1117,6 +1312,12 @@ def run(run):
         m = min(COPY_BATCH, n_copy - done)
         done += m
         _copy_batch(run, [gen_copy_case(rng) for _ in range(m)])
+    # ---- hash / change in place / compare with a never-hashed equal object
+    done = 0
+    while done < n_mut:
+        m = min(COPY_BATCH, n_mut - done)
+        done += m
+        _mutseq_batch(run, [gen_mutseq_case(rng) for _ in range(m)])
 
 
 CMP_BATCH = 5000
@@ -1232,6 +1433,10 @@ def search(run, n=6000):
             ev = eval_copy(case)
             if ev is not None:
                 oracle_copy(run, case, ev)
+            case = gen_mutseq_case(rng)
+            ev = eval_mutseq(case)
+            if ev is not None:
+                oracle_mutseq(run, case, ev)
         if len(run.violations) > before + 20:
             break
     return run.violations[before:]
@@ -1242,7 +1447,13 @@ def replay(payload):
     if 'case' in case and 'how' in case:
         case = case['case']
     r = common.Run(PROP, 'quick', 0)
-    if case.get('mode') == 'copy':
+    if case.get('mode') == 'mutseq':
+        ev = eval_mutseq(case)
+        if ev is None:
+            return True, 'spec rejected by the constructors (nothing to check)'
+        oracle_mutseq(r, case, ev)
+        shown = [{k: v for k, v in x.items() if k != 'encs'} for x in ev['res']]
+    elif case.get('mode') == 'copy':
         ev = eval_copy(case)
         if ev is None:
             return True, 'spec rejected by the constructors (nothing to check)'
